@@ -879,11 +879,9 @@ def _o_cubic(sp, s, c):
         if c.periodic(0) is False or b.periodic != 2:
             fails.append('PERIODIC: result basis has periodic=%d' % b.periodic)
         for d in (0, 1, 2):
-            a0 = D(b.start(), d, True) if d else np.asarray(c(b.start()))
-            a1 = D(b.end(), d, False) if d else np.asarray(c.evaluate(b.end() - 0.0))
-            if d == 0:
-                # value just left of the seam: evaluate at the end parameter from the left via the derivative API
-                a1 = np.asarray(c.derivative(b.end(), 0, above=False))
+            # the end parameter is evaluated from the left (the library's own end-point rule)
+            a0 = D(b.start(), d, True) if d else np.asarray(c(b.start()), dtype=float)
+            a1 = D(b.end(), d, False) if d else np.asarray(c(b.end()), dtype=float)
             if not _close(a0, a1, tol, sc / h ** d):
                 fails.append('PERIODIC: derivative %d differs across the seam: %r vs %r' % (d, a0.tolist(), a1.tolist()))
     if bd == 'FREE' and len(t) >= 5:
